@@ -74,6 +74,7 @@ type redisWorld struct {
 	env  *world.RedisEnv
 	step func(w *redisWorld) *simrt.Violation // extra per-step oracle
 	fin  func(w *redisWorld) *simrt.Violation // extra final oracle
+	post []func() *simrt.Violation            // oracles over the recorded history, run after the bubble has ended
 
 	fired         []bool
 	siteSeen      map[int]int // task id -> Steps value last counted
@@ -829,8 +830,22 @@ func describeReq(r world.Request) string {
 	return "[" + strings.Join(parts, " ") + "]"
 }
 
+// linTimeout: real-time limit of one linearizability check. The checks run after the bubble has ended (w.post): inside
+// it the clock is fake and a timeout would never fire while the checker is busy.
+const linTimeout = 8 * time.Second
+
+// progressTick tells the worker's watchdog that work outside the driver loop is advancing.
+func progressTick() { simrt.Progress.Add(1) }
+
 func runRedis(t *testing.T, sc *RedisScenario, w *redisWorld) harness.Outcome {
 	res := simrt.Run(t, w, sc.Options())
+	for _, f := range w.post {
+		if res.Violation != nil {
+			break
+		}
+		simrt.Progress.Add(1)
+		res.Violation = f()
+	}
 	out := harness.Outcome{Res: res, Faults: w.faultsFired, Nontrivial: w.nontrivial}
 	if w.env != nil {
 		world.DropStats(w.env.Name)
